@@ -28,7 +28,9 @@
 int l1sched_log_cat_common, l1sched_log_cat_data;
 
 static int rec_chan = -1, rec_bid = -1;
-static struct l1sched_lchan_state the_lchan;
+static struct l1sched_lchan_state lchans[_L1SCHED_CHAN_MAX];
+static int rec_on, rec_n;
+static struct { uint32_t fn; int chan, bid; } rec_list[512];
 
 static int rec_tx(struct l1sched_lchan_state *lchan, struct l1sched_burst_req *br)
 {
@@ -41,6 +43,12 @@ static int rec_rx(struct l1sched_lchan_state *lchan, const struct l1sched_burst_
 {
 	rec_chan = lchan->type;
 	rec_bid = bi->bid;
+	if (rec_on && rec_n < 512) {
+		rec_list[rec_n].fn = bi->fn;
+		rec_list[rec_n].chan = lchan->type;
+		rec_list[rec_n].bid = bi->bid;
+		rec_n++;
+	}
 	return 0;
 }
 
@@ -49,16 +57,21 @@ struct l1sched_lchan_desc l1sched_lchan_desc_rw[_L1SCHED_CHAN_MAX];
 
 struct l1sched_lchan_state *l1sched_find_lchan_by_type(struct l1sched_ts *ts, enum l1sched_lchan_type type)
 {
-	the_lchan.type = type;
-	the_lchan.active = true;
-	the_lchan.ts = ts;
-	return &the_lchan;
+	struct l1sched_lchan_state *l = &lchans[type];
+	if (!l->tx_prims.next)
+		INIT_LLIST_HEAD(&l->tx_prims);
+	l->type = type;
+	l->active = true;
+	l->ts = ts;
+	return l;
 }
 
 #define l1sched_prim_type_from_msgb(msg) (-1)
 #define l1sched_a5_burst_enc(lchan, br) ((void) 0)
 #define l1sched_a5_burst_dec(lchan, bi) ((void) 0)
+#ifndef WITH_SUBST_FRAME_LOSS
 static int subst_frame_loss(struct l1sched_lchan_state *lchan, l1sched_lchan_rx_func *handler, uint32_t fn) { return 0; }
+#endif
 #endif
 
 #ifdef LOOKUP_PART_2
@@ -80,6 +93,12 @@ static void probe(struct l1sched_state *sched, int config, int tn, uint32_t fn)
 	bi.fn = fn;
 	bi.tn = tn;
 	rec_chan = rec_bid = -1;
+	{
+		/* every probe is a first burst: no history of processed frames (the lost-frame cases are separate) */
+		int t;
+		for (t = 0; t < _L1SCHED_CHAN_MAX; t++)
+			lchans[t].tdma.num_proc = 0;
+	}
 	rc = l1sched_handle_rx_burst(sched, &bi);
 	printf("d %d %d %u %d %d %d\n", config, tn, fn, rec_chan, rec_bid, rc);
 }
@@ -94,7 +113,6 @@ int main(void)
 		l1sched_lchan_desc_rw[i].tx_fn = rec_tx;
 		l1sched_lchan_desc_rw[i].rx_fn = rec_rx;
 	}
-	INIT_LLIST_HEAD(&the_lchan.tx_prims);
 	sched.log_prefix = "";
 	for (config = 0; config < _GSM_PCHAN_MAX; config++) {
 		for (tn = 0; tn < 8; tn++) {
@@ -116,6 +134,42 @@ int main(void)
 				probe(&sched, config, tn, k);
 			for (fn = HYPERFRAME - 2 * mf->period; fn < HYPERFRAME; fn++)
 				probe(&sched, config, tn, fn);
+#ifdef WITH_SUBST_FRAME_LOSS
+			/* lost frames: a burst at fn1, the next burst of the same channel some occurrences later;
+			 * "l <config> <tn> <fn1> <fn2> <rc> : <fn>/<chan>/<bid> ..." lists every handler call of the second burst */
+			{
+				uint32_t bases[2] = { 3 * mf->period, HYPERFRAME - mf->period };
+				int b;
+				for (b = 0; b < 2; b++)
+				for (k = 0; k < mf->period; k++) {
+					uint32_t fn1 = (bases[b] + k) % HYPERFRAME, g;
+					int chan = mf->frames[fn1 % mf->period].dl_chan, occ = 0;
+					for (g = 1; g <= mf->period && occ < 3; g++) {
+						uint32_t fn2 = (fn1 + g) % HYPERFRAME;
+						static struct l1sched_burst_ind bi;
+						int rc, j;
+						if (mf->frames[fn2 % mf->period].dl_chan != chan)
+							continue;
+						occ++;
+						if (occ == 1)
+							continue;	/* the very next occurrence: nothing lost */
+						memset(&lchans[chan], 0, sizeof(lchans[chan]));
+						memset(&bi, 0, sizeof(bi));
+						bi.fn = fn1; bi.tn = tn;
+						l1sched_handle_rx_burst(&sched, &bi);
+						memset(&bi, 0, sizeof(bi));
+						bi.fn = fn2; bi.tn = tn;
+						rec_on = 1; rec_n = 0;
+						rc = l1sched_handle_rx_burst(&sched, &bi);
+						rec_on = 0;
+						printf("l %d %d %u %u %d :", config, tn, fn1, fn2, rc);
+						for (j = 0; j < rec_n; j++)
+							printf(" %u/%d/%d", rec_list[j].fn, rec_list[j].chan, rec_list[j].bid);
+						printf("\n");
+					}
+				}
+			}
+#endif
 		}
 	}
 	return 0;
